@@ -58,42 +58,42 @@ theorem cross_nodup {α : Type} : ∀ (axes : List (List α)), (∀ ax ∈ axes,
 
 /-! ## component grids -/
 
-theorem gridAxes_map_length (bd : Bool) : ∀ (a b : List Rat) (lv : LV), a.length = lv.length → b.length = lv.length →
+theorem gridAxes_map_length : ∀ (bd : Flags) (a b : List Rat) (lv : LV), a.length = lv.length → b.length = lv.length →
     (gridAxes a b lv bd).map List.length = gridNumPoints lv bd
-  | [], [], [], _, _ => rfl
-  | a :: as, b :: bs, l :: ls, ha, hb => by
+  | bd, [], [], [], _, _ => rfl
+  | bd, a :: as, b :: bs, l :: ls, ha, hb => by
       simp only [gridAxes, List.map_cons, gridNumPoints, levelPoints_length]
       congr 1
-      exact gridAxes_map_length bd as bs ls (by simpa using ha) (by simpa using hb)
-  | [], _ :: _, [], _, hb => by simp at hb
-  | _ :: _, _, [], ha, _ => by simp at ha
-  | [], _, _ :: _, ha, _ => by simp at ha
-  | _ :: _, [], _ :: _, _, hb => by simp at hb
+      exact gridAxes_map_length bd.tl as bs ls (by simpa using ha) (by simpa using hb)
+  | bd, [], _ :: _, [], _, hb => by simp at hb
+  | bd, _ :: _, _, [], ha, _ => by simp at ha
+  | bd, [], _, _ :: _, ha, _ => by simp at ha
+  | bd, _ :: _, [], _ :: _, _, hb => by simp at hb
 
 theorem foldl_mul_eq_prod (l : List Nat) : l.foldl (· * ·) 1 = l.prod := by
   rw [List.prod_eq_foldl]
 
 /-- **announced count**: the number of points a component grid returns is the announced
 `np.prod(levelToNumPoints(levelvec))` -/
-theorem gridPoints_length (a b : List Rat) (lv : LV) (bd : Bool) (ha : a.length = lv.length)
+theorem gridPoints_length (a b : List Rat) (lv : LV) (bd : Flags) (ha : a.length = lv.length)
     (hb : b.length = lv.length) : (gridPoints a b lv bd).length = gridNumPointsTotal lv bd := by
   unfold gridPoints gridNumPointsTotal
   rw [cross_length, gridAxes_map_length bd a b lv ha hb, foldl_mul_eq_prod]
 
-theorem weightAxes_map_length (bd : Bool) : ∀ (a b : List Rat) (lv : LV), a.length = lv.length → b.length = lv.length →
+theorem weightAxes_map_length : ∀ (bd : Flags) (a b : List Rat) (lv : LV), a.length = lv.length → b.length = lv.length →
     (weightAxes a b lv bd).map List.length = gridNumPoints lv bd
-  | [], [], [], _, _ => rfl
-  | a :: as, b :: bs, l :: ls, ha, hb => by
+  | bd, [], [], [], _, _ => rfl
+  | bd, a :: as, b :: bs, l :: ls, ha, hb => by
       simp only [weightAxes, List.map_cons, gridNumPoints, levelWeights_length]
       congr 1
-      exact weightAxes_map_length bd as bs ls (by simpa using ha) (by simpa using hb)
-  | [], _ :: _, [], _, hb => by simp at hb
-  | _ :: _, _, [], ha, _ => by simp at ha
-  | [], _, _ :: _, ha, _ => by simp at ha
-  | _ :: _, [], _ :: _, _, hb => by simp at hb
+      exact weightAxes_map_length bd.tl as bs ls (by simpa using ha) (by simpa using hb)
+  | bd, [], _ :: _, [], _, hb => by simp at hb
+  | bd, _ :: _, _, [], ha, _ => by simp at ha
+  | bd, [], _, _ :: _, ha, _ => by simp at ha
+  | bd, _ :: _, [], _ :: _, _, hb => by simp at hb
 
 /-- as many weights as points -/
-theorem gridWeights_length (a b : List Rat) (lv : LV) (bd : Bool) (ha : a.length = lv.length)
+theorem gridWeights_length (a b : List Rat) (lv : LV) (bd : Flags) (ha : a.length = lv.length)
     (hb : b.length = lv.length) : (gridWeights a b lv bd).length = gridNumPointsTotal lv bd := by
   unfold gridWeights gridNumPointsTotal
   rw [List.length_map, cross_length, weightAxes_map_length bd a b lv ha hb, foldl_mul_eq_prod]
@@ -111,11 +111,11 @@ theorem BoxOK_length : ∀ (a b : List Rat), BoxOK a b → a.length = b.length
   | _ :: _, [], h => by simp [BoxOK] at h
 
 /-- no point is returned twice -/
-theorem gridPoints_nodup (bd : Bool) : ∀ (a b : List Rat) (lv : LV), BoxOK a b → (gridPoints a b lv bd).Nodup := by
+theorem gridPoints_nodup (bd : Flags) : ∀ (a b : List Rat) (lv : LV), BoxOK a b → (gridPoints a b lv bd).Nodup := by
   intro a b lv hab
   unfold gridPoints
   apply cross_nodup
-  induction a generalizing b lv with
+  induction a generalizing b lv bd with
   | nil => intro ax hax; simp [gridAxes] at hax
   | cons a as ih =>
     cases b with
@@ -127,76 +127,76 @@ theorem gridPoints_nodup (bd : Bool) : ∀ (a b : List Rat) (lv : LV), BoxOK a b
         intro ax hax
         simp only [gridAxes, List.mem_cons] at hax
         rcases hax with rfl | hax
-        · exact (levelPoints_sorted a b hab.1 _ bd).imp (fun h => ne_of_lt h)
-        · exact ih bs ls hab.2 ax hax
+        · exact (levelPoints_sorted a b hab.1 _ (bd 0)).imp (fun h => ne_of_lt h)
+        · exact ih bd.tl bs ls hab.2 ax hax
 
 /-- membership in a component grid, coordinate by coordinate -/
-def InGrid (bd : Bool) : List Rat → List Rat → LV → List Rat → Prop
-  | [], [], [], [] => True
-  | a :: as, b :: bs, l :: ls, x :: xs => x ∈ levelPoints a b l.toNat bd ∧ InGrid bd as bs ls xs
-  | _, _, _, _ => False
+def InGrid : Flags → List Rat → List Rat → LV → List Rat → Prop
+  | _, [], [], [], [] => True
+  | bd, a :: as, b :: bs, l :: ls, x :: xs => x ∈ levelPoints a b l.toNat (bd 0) ∧ InGrid bd.tl as bs ls xs
+  | _, _, _, _, _ => False
 
-theorem mem_gridPoints (bd : Bool) : ∀ (a b : List Rat) (lv : LV) (x : List Rat),
+theorem mem_gridPoints : ∀ (bd : Flags) (a b : List Rat) (lv : LV) (x : List Rat),
     a.length = lv.length → b.length = lv.length → (x ∈ gridPoints a b lv bd ↔ InGrid bd a b lv x)
-  | [], [], [], [], _, _ => by simp [gridPoints, gridAxes, cross, InGrid]
-  | [], [], [], _ :: _, _, _ => by simp [gridPoints, gridAxes, cross, InGrid]
-  | a :: as, b :: bs, l :: ls, [], _, _ => by
+  | bd, [], [], [], [], _, _ => by simp [gridPoints, gridAxes, cross, InGrid]
+  | bd, [], [], [], _ :: _, _, _ => by simp [gridPoints, gridAxes, cross, InGrid]
+  | bd, a :: as, b :: bs, l :: ls, [], _, _ => by
       simp [gridPoints, gridAxes, mem_cross, InAxes, InGrid]
-  | a :: as, b :: bs, l :: ls, x :: xs, ha, hb => by
-      have ih := mem_gridPoints bd as bs ls xs (by simpa using ha) (by simpa using hb)
+  | bd, a :: as, b :: bs, l :: ls, x :: xs, ha, hb => by
+      have ih := mem_gridPoints bd.tl as bs ls xs (by simpa using ha) (by simpa using hb)
       unfold gridPoints at ih ⊢
       rw [mem_cross] at ih ⊢
       simp only [gridAxes, InAxes, InGrid]
       rw [ih]
-  | [], _ :: _, [], _, _, hb => by simp at hb
-  | _ :: _, _, [], _, ha, _ => by simp at ha
-  | [], _, _ :: _, _, ha, _ => by simp at ha
-  | _ :: _, [], _ :: _, _, _, hb => by simp at hb
+  | bd, [], _ :: _, [], _, _, hb => by simp at hb
+  | bd, _ :: _, _, [], _, ha, _ => by simp at ha
+  | bd, [], _, _ :: _, _, ha, _ => by simp at ha
+  | bd, _ :: _, [], _ :: _, _, _, hb => by simp at hb
 
-theorem InGrid_length (bd : Bool) : ∀ (a b : List Rat) (lv : LV) (x : List Rat), InGrid bd a b lv x → x.length = lv.length
-  | [], [], [], [], _ => rfl
-  | a :: as, b :: bs, l :: ls, x :: xs, h => by simp [InGrid_length bd as bs ls xs h.2]
-  | [], [], [], _ :: _, h => by simp [InGrid] at h
-  | _ :: _, _ :: _, _ :: _, [], h => by simp [InGrid] at h
-  | [], _ :: _, _, _, h => by simp [InGrid] at h
-  | _ :: _, [], _, _, h => by simp [InGrid] at h
-  | [], [], _ :: _, _, h => by simp [InGrid] at h
-  | _ :: _, _ :: _, [], _, h => by simp [InGrid] at h
+theorem InGrid_length : ∀ (bd : Flags) (a b : List Rat) (lv : LV) (x : List Rat), InGrid bd a b lv x → x.length = lv.length
+  | bd, [], [], [], [], _ => rfl
+  | bd, a :: as, b :: bs, l :: ls, x :: xs, h => by simp [InGrid_length bd.tl as bs ls xs h.2]
+  | bd, [], [], [], _ :: _, h => by simp [InGrid] at h
+  | bd, _ :: _, _ :: _, _ :: _, [], h => by simp [InGrid] at h
+  | bd, [], _ :: _, _, _, h => by simp [InGrid] at h
+  | bd, _ :: _, [], _, _, h => by simp [InGrid] at h
+  | bd, [], [], _ :: _, _, h => by simp [InGrid] at h
+  | bd, _ :: _, _ :: _, [], _, h => by simp [InGrid] at h
 
 /-- **nestedness of the component grids**: `l ≤ l'` componentwise ⇒ `grid_l ⊆ grid_l'` -/
-theorem InGrid_nested (bd : Bool) : ∀ (a b : List Rat) (l l' : LV) (x : List Rat),
+theorem InGrid_nested : ∀ (bd : Flags) (a b : List Rat) (l l' : LV) (x : List Rat),
     leAll l l' = true → InGrid bd a b l x → InGrid bd a b l' x
-  | [], [], [], [], [], _, _ => trivial
-  | a :: as, b :: bs, l :: ls, l' :: ls', x :: xs, hle, h => by
+  | bd, [], [], [], [], [], _, _ => trivial
+  | bd, a :: as, b :: bs, l :: ls, l' :: ls', x :: xs, hle, h => by
       simp only [leAll, Bool.and_eq_true, decide_eq_true_eq] at hle
-      exact ⟨levelPoints_nested a b bd (Int.toNat_le_toNat hle.1) h.1, InGrid_nested bd as bs ls ls' xs hle.2 h.2⟩
-  | [], [], [], _ :: _, _, hle, _ => by simp [leAll] at hle
-  | _, _, _ :: _, [], _, hle, _ => by simp [leAll] at hle
-  | [], [], [], [], _ :: _, _, h => by simp [InGrid] at h
-  | _ :: _, _ :: _, _ :: _, _ :: _, [], _, h => by simp [InGrid] at h
-  | [], _ :: _, _, _, _, _, h => by simp [InGrid] at h
-  | _ :: _, [], _, _, _, _, h => by simp [InGrid] at h
-  | [], [], _ :: _, _, _, _, h => by simp [InGrid] at h
-  | _ :: _, _ :: _, [], _, _, _, h => by simp [InGrid] at h
+      exact ⟨levelPoints_nested a b (bd 0) (Int.toNat_le_toNat hle.1) h.1, InGrid_nested bd.tl as bs ls ls' xs hle.2 h.2⟩
+  | bd, [], [], [], _ :: _, _, hle, _ => by simp [leAll] at hle
+  | bd, _, _, _ :: _, [], _, hle, _ => by simp [leAll] at hle
+  | bd, [], [], [], [], _ :: _, _, h => by simp [InGrid] at h
+  | bd, _ :: _, _ :: _, _ :: _, _ :: _, [], _, h => by simp [InGrid] at h
+  | bd, [], _ :: _, _, _, _, _, h => by simp [InGrid] at h
+  | bd, _ :: _, [], _, _, _, _, h => by simp [InGrid] at h
+  | bd, [], [], _ :: _, _, _, _, h => by simp [InGrid] at h
+  | bd, _ :: _, _ :: _, [], _, _, _, h => by simp [InGrid] at h
 
 /-- **level vector of a point**: a point of some component grid `L ≥ lmin` has a smallest level vector
 `k ≥ lmin`, and it lies in the grid of `l ≥ lmin` iff `k ≤ l` componentwise -/
-theorem exists_levelvec (bd : Bool) (lmin : Int) (h0 : 0 ≤ lmin) : ∀ (a b : List Rat) (L : LV) (x : List Rat),
+theorem exists_levelvec (lmin : Int) (h0 : 0 ≤ lmin) : ∀ (bd : Flags) (a b : List Rat) (L : LV) (x : List Rat),
     geAll lmin L → InGrid bd a b L x →
     ∃ k : LV, k.length = L.length ∧ geAll lmin k ∧ leAll k L = true ∧ InGrid bd a b k x ∧
       ∀ l : LV, l.length = L.length → geAll lmin l → (InGrid bd a b l x ↔ leAll k l = true)
-  | [], [], [], [], _, _ => by
+  | bd, [], [], [], [], _, _ => by
       refine ⟨[], rfl, fun _ h => by simp at h, rfl, trivial, ?_⟩
       intro l hl _
       have : l = [] := List.eq_nil_of_length_eq_zero hl
       subst this
       simp [InGrid, leAll]
-  | a :: as, b :: bs, L :: Ls, x :: xs, hL, h => by
+  | bd, a :: as, b :: bs, L :: Ls, x :: xs, hL, h => by
       have hL0 : lmin ≤ L := hL L (List.mem_cons_self ..)
       obtain ⟨ks, hks1, hks2, hks3, hks4, hks5⟩ :=
-        exists_levelvec bd lmin h0 as bs Ls xs (fun y hy => hL y (List.mem_cons_of_mem _ hy)) h.2
+        exists_levelvec lmin h0 bd.tl as bs Ls xs (fun y hy => hL y (List.mem_cons_of_mem _ hy)) h.2
       obtain ⟨k, hk1, hk2, hk3⟩ :=
-        exists_level a b bd lmin.toNat L.toNat (Int.toNat_le_toNat hL0) x h.1
+        exists_level a b (bd 0) lmin.toNat L.toNat (Int.toNat_le_toNat hL0) x h.1
       have hkk : ((k : Int)).toNat = k := Int.toNat_natCast k
       refine ⟨(k : Int) :: ks, by simp [hks1], ?_, ?_, ?_, ?_⟩
       · intro y hy
@@ -219,53 +219,53 @@ theorem exists_levelvec (bd : Bool) (lmin : Int) (h0 : 0 ≤ lmin) : ∀ (a b : 
           constructor
           · rintro ⟨h1, h2⟩; exact ⟨by omega, h2⟩
           · rintro ⟨h1, h2⟩; exact ⟨by omega, h2⟩
-  | [], [], [], _ :: _, _, h => by simp [InGrid] at h
-  | _ :: _, _ :: _, _ :: _, [], _, h => by simp [InGrid] at h
-  | [], _ :: _, _, _, _, h => by simp [InGrid] at h
-  | _ :: _, [], _, _, _, h => by simp [InGrid] at h
-  | [], [], _ :: _, _, _, h => by simp [InGrid] at h
-  | _ :: _, _ :: _, [], _, _, h => by simp [InGrid] at h
+  | bd, [], [], [], _ :: _, _, h => by simp [InGrid] at h
+  | bd, _ :: _, _ :: _, _ :: _, [], _, h => by simp [InGrid] at h
+  | bd, [], _ :: _, _, _, _, h => by simp [InGrid] at h
+  | bd, _ :: _, [], _, _, _, h => by simp [InGrid] at h
+  | bd, [], [], _ :: _, _, _, h => by simp [InGrid] at h
+  | bd, _ :: _, _ :: _, [], _, _, h => by simp [InGrid] at h
 
 /-! ## the interpolation mesh of a component grid -/
 
 /-- a point of the component grid `k` is a mesh point of the mesh of `k` -/
-theorem onMesh_of_inGrid (bd : Bool) : ∀ (a b : List Rat) (k : LV) (x : List Rat),
+theorem onMesh_of_inGrid : ∀ (bd : Flags) (a b : List Rat) (k : LV) (x : List Rat),
     BoxOK a b → InGrid bd a b k x → OnMesh (meshAxes a b k bd) x
-  | [], [], [], [], _, _ => trivial
-  | a :: as, b :: bs, k :: ks, x :: xs, hab, h =>
-      ⟨meshAxis_sorted a b hab.1 _ bd, levelPoints_sub_meshAxis a b _ bd h.1, onMesh_of_inGrid bd as bs ks xs hab.2 h.2⟩
-  | [], [], [], _ :: _, _, h => by simp [InGrid] at h
-  | _ :: _, _ :: _, _ :: _, [], _, h => by simp [InGrid] at h
-  | [], _ :: _, _, _, _, h => by simp [InGrid] at h
-  | _ :: _, [], _, _, _, h => by simp [InGrid] at h
-  | [], [], _ :: _, _, _, h => by simp [InGrid] at h
-  | _ :: _, _ :: _, [], _, _, h => by simp [InGrid] at h
+  | bd, [], [], [], [], _, _ => trivial
+  | bd, a :: as, b :: bs, k :: ks, x :: xs, hab, h =>
+      ⟨meshAxis_sorted a b hab.1 _ (bd 0), levelPoints_sub_meshAxis a b _ (bd 0) h.1, onMesh_of_inGrid bd.tl as bs ks xs hab.2 h.2⟩
+  | bd, [], [], [], _ :: _, _, h => by simp [InGrid] at h
+  | bd, _ :: _, _ :: _, _ :: _, [], _, h => by simp [InGrid] at h
+  | bd, [], _ :: _, _, _, _, h => by simp [InGrid] at h
+  | bd, _ :: _, [], _, _, _, h => by simp [InGrid] at h
+  | bd, [], [], _ :: _, _, _, h => by simp [InGrid] at h
+  | bd, _ :: _, _ :: _, [], _, _, h => by simp [InGrid] at h
 
 /-- the meshes of `l` and of `l ⊓ k` agree at a point of the component grid `k` -/
-theorem meshAgree_meet (bd : Bool) : ∀ (a b : List Rat) (l k : LV) (x : List Rat),
+theorem meshAgree_meet : ∀ (bd : Flags) (a b : List Rat) (l k : LV) (x : List Rat),
     BoxOK a b → l.length = k.length → InGrid bd a b k x →
     MeshAgree (meshAxes a b l bd) (meshAxes a b (meet l k) bd) x
-  | [], [], [], [], [], _, _, _ => trivial
-  | a :: as, b :: bs, l :: ls, k :: ks, x :: xs, hab, hl, h => by
+  | bd, [], [], [], [], [], _, _, _ => trivial
+  | bd, a :: as, b :: bs, l :: ls, k :: ks, x :: xs, hab, hl, h => by
       simp only [meet_cons, meshAxes, MeshAgree]
-      refine ⟨?_, meshAgree_meet bd as bs ls ks xs hab.2 (by simpa using hl) h.2⟩
+      refine ⟨?_, meshAgree_meet bd.tl as bs ls ks xs hab.2 (by simpa using hl) h.2⟩
       by_cases hkl : k ≤ l
       · right
         have hmin : min l k = k := by omega
         rw [hmin]
-        exact ⟨meshAxis_sorted a b hab.1 _ bd, meshAxis_sorted a b hab.1 _ bd,
-          levelPoints_sub_meshAxis a b _ bd (levelPoints_nested a b bd (Int.toNat_le_toNat hkl) h.1),
-          levelPoints_sub_meshAxis a b _ bd h.1⟩
+        exact ⟨meshAxis_sorted a b hab.1 _ (bd 0), meshAxis_sorted a b hab.1 _ (bd 0),
+          levelPoints_sub_meshAxis a b _ (bd 0) (levelPoints_nested a b (bd 0) (Int.toNat_le_toNat hkl) h.1),
+          levelPoints_sub_meshAxis a b _ (bd 0) h.1⟩
       · left
         have hmin : min l k = l := by omega
         rw [hmin]
-  | [], [], _ :: _, [], _, _, hl, _ => by simp at hl
-  | [], [], [], _ :: _, _, _, hl, _ => by simp at hl
-  | [], [], [], [], _ :: _, _, _, h => by simp [InGrid] at h
-  | _ :: _, _ :: _, _, _ :: _, [], _, _, h => by simp [InGrid] at h
-  | [], _ :: _, _, _, _, _, _, h => by simp [InGrid] at h
-  | _ :: _, [], _, _, _, _, _, h => by simp [InGrid] at h
-  | [], [], _, _ :: _, _, _, _, h => by simp [InGrid] at h
-  | _ :: _, _ :: _, _, [], _, _, _, h => by simp [InGrid] at h
+  | bd, [], [], _ :: _, [], _, _, hl, _ => by simp at hl
+  | bd, [], [], [], _ :: _, _, _, hl, _ => by simp at hl
+  | bd, [], [], [], [], _ :: _, _, _, h => by simp [InGrid] at h
+  | bd, _ :: _, _ :: _, _, _ :: _, [], _, _, h => by simp [InGrid] at h
+  | bd, [], _ :: _, _, _, _, _, _, h => by simp [InGrid] at h
+  | bd, _ :: _, [], _, _, _, _, _, h => by simp [InGrid] at h
+  | bd, [], [], _, _ :: _, _, _, _, h => by simp [InGrid] at h
+  | bd, _ :: _, _ :: _, _, [], _, _, _, h => by simp [InGrid] at h
 
 end SparseSpace
